@@ -103,10 +103,28 @@ void __tsan_acquire(void *addr);
 void __tsan_release(void *addr);
 #define TS_ACQ(a) __tsan_acquire(a)
 #define TS_REL(a) __tsan_release(a)
+#define SG_ACQ(a) ((void)0)
+#define SG_REL(a) ((void)0)
+#define HB_BEGIN() ((void)0)
+#elif defined(VS_HB)
+/* variant `hbrace': our own happens-before race detector (end of this file)
+   is told the same edges, plus kill() -> signal delivery */
+static void hb_acquire(void *addr);
+static void hb_release(void *addr);
+static void hb_begin(void);
+#define TS_ACQ(a) hb_acquire(a)
+#define TS_REL(a) hb_release(a)
+#define SG_ACQ(a) hb_acquire(a)
+#define SG_REL(a) hb_release(a)
+#define HB_BEGIN() hb_begin()
 #else
 #define TS_ACQ(a) ((void)0)
 #define TS_REL(a) ((void)0)
+#define SG_ACQ(a) ((void)0)
+#define SG_REL(a) ((void)0)
+#define HB_BEGIN() ((void)0)
 #endif
+static char hb_sigobj;
 static char ts_epoch_end, ts_epoch_start;
 static char ts_thread[VS_MAXT], ts_done[VS_MAXT];
 
@@ -361,6 +379,25 @@ post_signal(int sig)
   proc_pend |= BIT(sig);
 }
 
+static int prio_order[8], prio_n;
+
+/* r-th permutation (factorial number system) of 0..K-1 */
+static void
+prio_decode(int K, int r)
+{
+  int pool_[8], i, j, f = 1;
+  for (i = 0; i < K; i++) pool_[i] = i;
+  for (i = 2; i < K; i++) f *= i;       /* (K-1)! */
+  prio_n = K;
+  for (i = 0; i < K; i++) {
+    int q = r / f;
+    r %= f;
+    prio_order[i] = pool_[q];
+    for (j = q; j < K - 1 - i; j++) pool_[j] = pool_[j + 1];
+    if (K - 1 - i > 0) f /= (K - 1 - i);
+  }
+}
+
 static void
 sched_point(int self)
 {
@@ -390,6 +427,16 @@ sched_point(int self)
         if (enabled(t)) alts[n++] = t;
       }
       break;
+    }
+    if (vs_cfg.policy >= 3) {
+      /* strict (preemptive) priorities: a thread runs only while every thread
+         of higher priority is blocked; threads beyond the permuted ones come
+         last, in creation order */
+      n = 0;
+      for (k = 0; k < prio_n; k++)
+        if (prio_order[k] < nthreads && enabled(prio_order[k])) alts[n++] = prio_order[k];
+      for (t = prio_n; t < nthreads; t++)
+        if (enabled(t)) alts[n++] = t;
     }
     nthr = n;
     if (nthr == 0) {
@@ -739,6 +786,7 @@ deliver(int self, uint64_t mask)
   uint64_t set = (proc_pend | T[self].pend) & ~mask;
   if (!set)
     return 0;
+  SG_ACQ(&hb_sigobj);
   for (s = 1; s < 64; s++) {
     if (!(set & BIT(s)))
       continue;
@@ -834,6 +882,7 @@ vs_kill(pid_t pid, int sig)
   sched_point(self);
   T[self].op = OP_NONE;
   vtrace("   t%d: kill(self, %d)\n", self, sig);
+  SG_REL(&hb_sigobj);
   post_signal(sig);
   if (!(T[self].mask & BIT(sig)))
     deliver(self, T[self].mask);
@@ -974,6 +1023,36 @@ vs_write(int fd, const void *buf, size_t n)
   return rc;
 }
 
+/* stderr is fully buffered by lbzip2 (setbuf) and flushed once per message:
+   the flush is where a failing log device shows.  inv_flags bit 128 tells the
+   oracle that diagnostics could not be delivered in this execution. */
+static int stderr_broken;
+
+int
+vs_fflush(FILE *f)
+{
+  int self = vs_self;
+  if (f != stderr || !vs_cfg.senv)
+    return fflush(f);
+  if (!stderr_broken) {
+    int kinds[3], k = 0, c;
+    kinds[k++] = 0;
+    if (vs_cfg.senv & 1) kinds[k++] = EPIPE;
+    if (vs_cfg.senv & 2) kinds[k++] = EIO;
+    c = choose(CP_SENV, k, self, 1);
+    if (kinds[c] == 0)
+      return fflush(f);
+    stderr_broken = kinds[c];
+    vs_rec->inv_flags |= 128;
+    vtrace("   t%d: fflush(stderr) -> errno %d\n", self, stderr_broken);
+    if (stderr_broken == EPIPE)
+      thread_signal(self, SIGPIPE);
+  }
+  __fpurge(f);
+  errno = stderr_broken;
+  return EOF;
+}
+
 int
 vs_isatty(int fd)
 {
@@ -1040,18 +1119,59 @@ ht_del(void *p)
   }
 }
 
+/* Every block handed to lbzip2 carries a 16-byte header (size, magic) and a
+   16-byte canary behind the user area.  lbzip2's fixed-capacity priority
+   queues have no capacity field (enqueue writes root[size++]), so an overrun
+   by one element lands in the canary; it is checked when the block is freed
+   and, for blocks still live, when the execution ends (inv_flags bit 256). */
+#define VS_HDR 16
+#define VS_CAN 16
+#define VS_MAGIC 0x76734d61u
+struct vs_hdr { uint64_t size; uint32_t magic; uint32_t pad; };
+
+static void
+canary_check(void *user)
+{
+  struct vs_hdr *h = (struct vs_hdr *)((char *)user - VS_HDR);
+  unsigned char *c;
+  unsigned i;
+  if (h->magic != VS_MAGIC) {
+    if (!(vs_rec->inv_flags & 256))
+      snprintf(vs_rec->note, sizeof vs_rec->note, "heap block %p: header overwritten (write in front of an allocation)", user);
+    vs_rec->inv_flags |= 256;
+    return;
+  }
+  c = (unsigned char *)user + h->size;
+  for (i = 0; i < VS_CAN; i++)
+    if (c[i] != (unsigned char)(0xA5 ^ i)) {
+      if (!(vs_rec->inv_flags & 256))
+        snprintf(vs_rec->note, sizeof vs_rec->note, "heap block of %llu bytes overrun: byte %u behind its end was overwritten",
+                 (unsigned long long)h->size, i);
+      vs_rec->inv_flags |= 256;
+      return;
+    }
+}
+
 void *
 vs_malloc(size_t n)
 {
-  void *p = malloc(n);
-  if (p) {
+  char *b = malloc(n + VS_HDR + VS_CAN);
+  void *p = NULL;
+  if (b) {
+    struct vs_hdr *h = (struct vs_hdr *)b;
+    unsigned i;
     /* charge what the allocator says the block is worth, so that vs_free can
        give back exactly the same amount */
-    uint64_t l = __atomic_add_fetch(&heap_live, malloc_usable_size(p), __ATOMIC_RELAXED);
+    uint64_t l = __atomic_add_fetch(&heap_live, malloc_usable_size(b), __ATOMIC_RELAXED);
     if (l > vs_rec->heap_peak)
       vs_rec->heap_peak = l;
-    if (vs_inproc)
-      ht_add(p);
+    h->size = n;
+    h->magic = VS_MAGIC;
+    h->pad = 0;
+    p = b + VS_HDR;
+    for (i = 0; i < VS_CAN; i++)
+      ((unsigned char *)p)[n + i] = (unsigned char)(0xA5 ^ i);
+    ht_add(p);
   }
   return p;
 }
@@ -1059,13 +1179,19 @@ vs_malloc(size_t n)
 void
 vs_free(void *p)
 {
-  if (p) {
-    __atomic_sub_fetch(&heap_live, malloc_usable_size(p), __ATOMIC_RELAXED);
-    if (vs_inproc && !ht_del(p)) {
-      /* not ours (allocated by libc on lbzip2's behalf): just free it */
-    }
+  if (!p)
+    return;
+  if (ht_del(p)) {
+    char *b = (char *)p - VS_HDR;
+    canary_check(p);
+    __atomic_sub_fetch(&heap_live, malloc_usable_size(b), __ATOMIC_RELAXED);
+    ((struct vs_hdr *)b)->magic = 0;
+    free(b);
   }
-  free(p);
+  else {
+    /* not ours (allocated by libc on lbzip2's behalf): just free it */
+    free(p);
+  }
 }
 
 #define MAXFD 16
@@ -1274,7 +1400,13 @@ vs_begin(void)
     act[SIGPIPE] = ACT_IGN;
     act[SIGXFSZ] = ACT_IGN;
   }
+  HB_BEGIN();
   sigs_sent = 0;
+  prio_n = 0;
+  if (vs_cfg.policy >= 3 && vs_cfg.nprio >= 1 && vs_cfg.nprio <= 7)
+    prio_decode(vs_cfg.nprio, vs_cfg.policy - 3);
+  stderr_broken = 0;
+  T[0].mask = vs_cfg.inherit_mask;
   spurious_left = vs_cfg.spurious;
   devpos = 0;
   heap_live = 0;
@@ -1372,7 +1504,8 @@ vs_inproc_run(void)
   /* give back what the execution still held */
   for (i = 0; i < HT_SIZE && ht_n > 0; i++)
     if (HT[i]) {
-      free(HT[i]);
+      canary_check(HT[i]);
+      free((char *)HT[i] - VS_HDR);
       HT[i] = NULL;
       ht_n--;
     }
@@ -1382,3 +1515,173 @@ vs_inproc_run(void)
   __fpurge(stderr);
   __fpurge(stdout);
 }
+
+
+/* ---- happens-before race detector for lbzip2's globals (variant `hbrace') ----
+ *
+ * The lbzip2 sources are compiled with clang -fsanitize=thread, which makes
+ * every load and store call __tsan_readN/__tsan_writeN; instead of the
+ * ThreadSanitizer runtime these are implemented here (-DVS_HB).  Vector
+ * clocks follow exactly lbzip2's own synchronisation as the scheduler model
+ * sees it (mutex unlock -> lock, flockfile, thread creation, join, kill() ->
+ * signal delivery); every access to a writable global of lbzip2 (sections
+ * lbz_data/lbz_bss) is checked against the last write and the reads since
+ * (DJIT+).  Same verdicts as ThreadSanitizer for these variables, but it runs
+ * in the fast in-process executor, so that the schedule explorations that
+ * are too expensive under ThreadSanitizer (one forked process per execution)
+ * can be repeated with a race oracle.  Heap objects are covered by the tsan
+ * variant only.  inv_flags bit 512 = race found; note = description.
+ */
+#ifdef VS_HB
+extern char __start_lbz_data[], __stop_lbz_data[], __start_lbz_bss[], __stop_lbz_bss[];
+
+struct hb_var {
+  uintptr_t addr;
+  uint32_t gen, reported;
+  int w_tid;
+  uint32_t w_clk;
+  uintptr_t w_pc;
+  uint32_t r_clk[VS_MAXT];
+  uintptr_t r_pc[VS_MAXT];
+};
+#define HB_VARS 2048
+#define HB_OBJS 128
+static struct hb_var *HBV;
+static uint32_t hb_gen;
+static uint32_t hb_vc[VS_MAXT][VS_MAXT];
+static struct { void *addr; uint32_t vc[VS_MAXT]; } hb_obj[HB_OBJS];
+static int hb_nobj;
+
+static void
+hb_begin(void)
+{
+  if (!HBV)
+    HBV = calloc(HB_VARS, sizeof *HBV);
+  hb_gen++;
+  memset(hb_vc, 0, sizeof hb_vc);
+  hb_nobj = 0;
+  hb_vc[0][0] = 1;
+}
+
+static int
+hb_find(void *a)
+{
+  int i;
+  if (a == (void *)&ts_epoch_start || a == (void *)&ts_epoch_end)
+    return -1;
+  for (i = 0; i < hb_nobj; i++)
+    if (hb_obj[i].addr == a)
+      return i;
+  if (hb_nobj == HB_OBJS)
+    abort();
+  hb_obj[hb_nobj].addr = a;
+  memset(hb_obj[hb_nobj].vc, 0, sizeof hb_obj[hb_nobj].vc);
+  return hb_nobj++;
+}
+
+static void
+hb_release(void *a)
+{
+  int self = vs_self, i, o = hb_find(a);
+  if (o < 0)
+    return;
+  for (i = 0; i < VS_MAXT; i++)
+    if (hb_vc[self][i] > hb_obj[o].vc[i])
+      hb_obj[o].vc[i] = hb_vc[self][i];
+  hb_vc[self][self]++;
+}
+
+static void
+hb_acquire(void *a)
+{
+  int self = vs_self, i, o = hb_find(a);
+  if (o < 0)
+    return;
+  if (hb_vc[self][self] == 0)
+    hb_vc[self][self] = 1;
+  for (i = 0; i < VS_MAXT; i++)
+    if (hb_obj[o].vc[i] > hb_vc[self][i])
+      hb_vc[self][i] = hb_obj[o].vc[i];
+}
+
+static void
+hb_report(struct hb_var *v, int a, int a_write, uintptr_t pca, int b, int b_write, uintptr_t pcb)
+{
+  if (v->reported)
+    return;
+  v->reported = 1;
+  if (!(vs_rec->inv_flags & 512))
+    snprintf(vs_rec->note, sizeof vs_rec->note,
+             "data race on global at %p: %s by t%d (pc %p) and %s by t%d (pc %p) are not ordered by "
+             "lbzip2's synchronisation (mutexes, thread creation/join, signals)",
+             (void *)v->addr, a_write ? "write" : "read", a, (void *)pca, b_write ? "write" : "read", b, (void *)pcb);
+  vs_rec->inv_flags |= 512;
+}
+
+static void
+hb_access(uintptr_t a, int is_write, uintptr_t pc)
+{
+  struct hb_var *v = NULL;
+  unsigned h, k;
+  int self, x;
+  if (!((a >= (uintptr_t)__start_lbz_data && a < (uintptr_t)__stop_lbz_data) ||
+        (a >= (uintptr_t)__start_lbz_bss && a < (uintptr_t)__stop_lbz_bss)) || !HBV)
+    return;
+  self = vs_self;
+  if (hb_vc[self][self] == 0)
+    hb_vc[self][self] = 1;
+  h = (unsigned)((a * 0x9E3779B97F4A7C15ull) >> 53) & (HB_VARS - 1);
+  for (k = 0; k < HB_VARS; k++, h = (h + 1) & (HB_VARS - 1)) {
+    v = &HBV[h];
+    if (v->gen != hb_gen) {
+      memset(v, 0, sizeof *v);
+      v->gen = hb_gen;
+      v->addr = a;
+      v->w_tid = -1;
+      break;
+    }
+    if (v->addr == a)
+      break;
+  }
+  if (k == HB_VARS)
+    return;                     /* table full: stop tracking new addresses */
+  if (v->w_tid >= 0 && v->w_tid != self && v->w_clk > hb_vc[self][v->w_tid])
+    hb_report(v, v->w_tid, 1, v->w_pc, self, is_write, pc);
+  if (is_write) {
+    for (x = 0; x < nthreads; x++)
+      if (x != self && v->r_clk[x] > hb_vc[self][x])
+        hb_report(v, x, 0, v->r_pc[x], self, 1, pc);
+    v->w_tid = self;
+    v->w_clk = hb_vc[self][self];
+    v->w_pc = pc;
+    memset(v->r_clk, 0, sizeof v->r_clk);
+  }
+  else {
+    v->r_clk[self] = hb_vc[self][self];
+    v->r_pc[self] = pc;
+  }
+}
+
+#define HB_RA ((uintptr_t)__builtin_return_address(0))
+void __tsan_init(void) {}
+void __tsan_func_entry(void *pc) { (void)pc; }
+void __tsan_func_exit(void) {}
+void __tsan_read1(void *a) { hb_access((uintptr_t)a, 0, HB_RA); }
+void __tsan_read2(void *a) { hb_access((uintptr_t)a, 0, HB_RA); }
+void __tsan_read4(void *a) { hb_access((uintptr_t)a, 0, HB_RA); }
+void __tsan_read8(void *a) { hb_access((uintptr_t)a, 0, HB_RA); }
+void __tsan_read16(void *a) { hb_access((uintptr_t)a, 0, HB_RA); hb_access((uintptr_t)a + 8, 0, HB_RA); }
+void __tsan_write1(void *a) { hb_access((uintptr_t)a, 1, HB_RA); }
+void __tsan_write2(void *a) { hb_access((uintptr_t)a, 1, HB_RA); }
+void __tsan_write4(void *a) { hb_access((uintptr_t)a, 1, HB_RA); }
+void __tsan_write8(void *a) { hb_access((uintptr_t)a, 1, HB_RA); }
+void __tsan_write16(void *a) { hb_access((uintptr_t)a, 1, HB_RA); hb_access((uintptr_t)a + 8, 1, HB_RA); }
+void __tsan_unaligned_read2(void *a) { hb_access((uintptr_t)a, 0, HB_RA); }
+void __tsan_unaligned_read4(void *a) { hb_access((uintptr_t)a, 0, HB_RA); }
+void __tsan_unaligned_read8(void *a) { hb_access((uintptr_t)a, 0, HB_RA); }
+void __tsan_unaligned_write2(void *a) { hb_access((uintptr_t)a, 1, HB_RA); }
+void __tsan_unaligned_write4(void *a) { hb_access((uintptr_t)a, 1, HB_RA); }
+void __tsan_unaligned_write8(void *a) { hb_access((uintptr_t)a, 1, HB_RA); }
+void __tsan_vptr_update(void **a, void *b) { (void)a; (void)b; }
+void __tsan_vptr_read(void **a) { (void)a; }
+#endif
